@@ -30,11 +30,12 @@ def rand_vine_table(rng, d_lo, d_hi, n_lo=60, n_hi=300):
         spec['round'] = rng.choice([1, 2])          # ties in the data
     elif r < 0.34 and d >= 3:
         spec['tie_cols'] = True                     # exactly tied pairwise tau values
-    return spec
+    return zoo.with_index(spec)
 
 
 def make_table(spec):
     sp = dict(spec)
+    sp.pop('index', None)                           # applied last, see the return
     pattern = sp.get('pattern')
     if pattern == 'block':
         sp['pattern'] = 'random'
@@ -52,7 +53,7 @@ def make_table(spec):
         for col, lv in zip(df.columns, spec['levels']):
             if lv:
                 q = pd.qcut(df[col], lv, labels=False, duplicates='drop')
-                df[col] = q.astype(float) * 1.5 + 1.0
+                df[col] = q.to_numpy().astype(float) * 1.5 + 1.0
     if spec.get('tie_cols') and df.shape[1] >= 3:
         # exact tie tau(c0,c2) == tau(c1,c2) without extreme dependence: c1 is c0 in reversed
         # row order and c2 is symmetric under row reversal, so reversing the rows maps the
@@ -64,7 +65,7 @@ def make_table(spec):
             c2[n - 1 - i] = c2[i]
         df[df.columns[1]] = c0[::-1] * 0.5 + 1.0
         df[df.columns[2]] = c2
-    return df
+    return zoo.decorate_index(df, spec.get('index', 'range'))
 
 
 def fit_vine(vine_type, truncated, df, poison, pseed=0, state=7, seed=None, prefit=None,
